@@ -3,7 +3,11 @@
 (* integers are 32 bit.                                                      *)
 EXTENDS Naturals, Sequences, Bitwise
 Zero128 == [i \in 1..8 |-> 0]
-XorL(a, b) == [i \in 1..8 |-> a[i] ^^ b[i]]
+\* (the ^^ of the Bitwise module is a slow recursive definition: 16-bit XOR by nibble table)
+Nib == [a \in 0..15 |-> [b \in 0..15 |-> a ^^ b]]
+Xor16(a, b) == Nib[a % 16][b % 16] + 16 * Nib[(a \div 16) % 16][(b \div 16) % 16]
+               + 256 * Nib[(a \div 256) % 16][(b \div 256) % 16] + 4096 * Nib[a \div 4096][b \div 4096]
+XorL(a, b) == [i \in 1..8 |-> Xor16(a[i], b[i])]
 AndBit(b, a) == IF b THEN a ELSE Zero128
 Pow2(k) == LET RECURSIVE P(_) P(x) == IF x = 0 THEN 1 ELSE 2 * P(x - 1) IN P(k)
 BitOf(a, k) == (a[(k \div 16) + 1] \div Pow2(k % 16)) % 2
